@@ -77,6 +77,9 @@ type Obs struct {
 	Quiet bool                 `json:"quiet"`
 	Ok    map[string]bool      `json:"ok,omitempty"`
 	finds int                  // FindPeers calls so far (real side only)
+	recT  map[string]time.Time // deadlines of the back-off records, read between at0 and at1 together with Hb
+	at0   time.Time
+	at1   time.Time
 }
 
 const (
@@ -112,8 +115,9 @@ type run struct {
 	rounds, finds int
 	dlUnconfirmed bool
 	callers       map[string]*caller
-	lastAdd       *bool // result of the last direct Add
-	note          string
+	lastAdd       *bool  // result of the last direct Add
+	contact       string // peer a worker has just been in contact with (dial returned / found connected)
+	fullAt        map[string]bool // peers delivered while the real set was at (or above) its limit
 }
 
 func newRun(rep *vh.Report, b *Beh) (*run, error) {
@@ -232,15 +236,18 @@ func (r *run) observe() *Obs {
 	}
 	o.finds = finds
 	if r.d != nil {
+		o.recT = map[string]time.Time{}
+		o.at0 = time.Now()
 		for p, t := range r.cn.Records() {
 			o.Rec = append(o.Rec, e.name(p))
-			_ = t
+			o.recT[e.name(p)] = t
 		}
 		for _, p := range r.b.Peers {
 			if r.cn.HasBackoff(e.ids[p]) {
 				o.Hb = append(o.Hb, p)
 			}
 		}
+		o.at1 = time.Now()
 	}
 	unparked := 0
 	for _, c := range r.callers {
@@ -351,17 +358,45 @@ func (r *run) barrier() {
 	}
 }
 
+// atRest: every real goroutine the harness knows of is blocked at a gate, parked or gone -- nothing will change
+// by itself any more.
+func atRest(o *Obs) bool {
+	for _, w := range o.Wk {
+		if w[1] == "running" {
+			return false
+		}
+	}
+	for _, c := range o.Cl {
+		if c.Pc == "running" {
+			return false
+		}
+	}
+	return o.Dl.Pc != "running"
+}
+
 func (r *run) settle(m *Obs) (bool, *Obs, string) {
 	if r.dlUnconfirmed && m.Dl.Pc == "recv" {
 		r.barrier()
 	}
 	dl := time.Now().Add(settleD)
 	sleep := 20 * time.Microsecond
+	var restSince time.Time
 	for {
 		o := r.observe()
 		ok, why := r.same(m, o)
 		if ok || time.Now().After(dl) {
 			return ok, o, why
+		}
+		// different and at rest for a while (goroutines that are about to start would show up within it; a round
+		// that should have ended, a result that should have come are waited for in full)
+		if atRest(o) && !(m.Busy != o.Busy) && !strings.HasPrefix(why, "callers") && !strings.HasPrefix(why, "FindPeers") {
+			if restSince.IsZero() {
+				restSince = time.Now()
+			} else if time.Since(restSince) > 300*time.Millisecond {
+				return false, o, why
+			}
+		} else {
+			restSince = time.Time{}
 		}
 		time.Sleep(sleep)
 		if sleep < 5*time.Millisecond {
@@ -402,6 +437,10 @@ func (r *run) do(a map[string]any) error {
 		}
 		return need("discover", "", nil)
 	case "Deliver":
+		if r.fullAt == nil {
+			r.fullAt = map[string]bool{}
+		}
+		r.fullAt[p] = int(r.set.Size()) >= r.b.Limit && len(r.evq) == 0 && r.e.pendingCount("unprot")+r.e.pendingCount("cb-") == 0 && !r.dlUnconfirmed
 		e.mu.Lock()
 		r.live[p] = e.exits[p]
 		e.mu.Unlock()
@@ -421,6 +460,9 @@ func (r *run) do(a map[string]any) error {
 			r.lastAdd = nil
 		}
 	case "WConnectedness":
+		if boolean(a, "connected") {
+			r.contact = p
+		}
 		return need("conn", p, boolean(a, "connected"))
 	case "WDial":
 		if boolean(a, "ok") {
@@ -428,6 +470,7 @@ func (r *run) do(a map[string]any) error {
 		}
 		return need("dial", p, boolean(a, "ok"))
 	case "WDialReturn":
+		r.contact = p
 		return need("dialret", p, nil)
 	case "WCallback":
 		return need("cb+", p, nil)
@@ -515,7 +558,7 @@ func (r *run) monitors(o *Obs) map[string]bool {
 	}
 	m := map[string]bool{"hardLimit": len(o.Set) <= r.b.Limit, "sizeBound": len(o.Set) <= 2*r.b.Limit-1,
 		"inSetConnected": true, "inOrder": true, "exactlyOnce": true, "view": true, "stranded": true, "prot": true,
-		"peersResult": true, "dial": true}
+		"peersResult": true, "dial": true, "cancel": true, "hbConsistent": true, "contact": true, "enough": true}
 	if r.b.Mode == "api" {
 		m["hardLimit"], m["sizeBound"] = true, true // a bare set is not limited by anything
 	}
@@ -527,8 +570,39 @@ func (r *run) monitors(o *Obs) map[string]bool {
 			m["peersResult"] = false
 		}
 	}
+	for _, c := range r.callers {
+		// a cancelled caller that is still inside Peers when the harness stops waiting for it
+		select {
+		case <-c.done:
+		default:
+			if c.canceled && o.Cl[c.name].Pc != "gEmpty" {
+				m["cancel"] = false
+			}
+		}
+	}
 	if r.b.Mode == "api" {
 		return m
+	}
+	// the connector against its own records: HasBackoff(p) <=> a record exists and its deadline lies ahead; a contact
+	// leaves a deadline one back-off ahead
+	for _, p := range r.b.Peers {
+		t, ok := o.recT[p]
+		if !(ok && !t.Before(o.at0) && !t.After(o.at1)) && in(o.Hb, p) != (ok && t.After(o.at1)) {
+			m["hbConsistent"] = false
+		}
+		if p == r.contact {
+			want := o.at1.Add(time.Duration(r.b.Delay) * tick)
+			if !ok || t.After(want) || t.Before(want.Add(-2*time.Minute)) || !in(o.Hb, p) {
+				m["contact"] = false
+			}
+		}
+	}
+	// a peer handed over while the set was at its limit (and nothing was removing members) is skipped:
+	// its worker never asks for the peer's connectedness
+	for _, w := range o.Wk {
+		if r.fullAt[w[0]] && w[1] != "running" {
+			m["enough"] = false
+		}
 	}
 	for _, p := range o.Set {
 		if !r.conn[p] && !in(r.evq, p) && !(o.Dl.P == p && (o.Dl.Pc == "gUnprot" || o.Dl.Pc == "running")) {
@@ -571,12 +645,14 @@ func (r *run) monitors(o *Obs) map[string]bool {
 }
 
 // alwaysHold are the monitors whose property is an invariant of the model as it is.
-var alwaysHold = map[string]bool{"sizeBound": true, "exactlyOnce": true, "peersResult": true}
+var alwaysHold = map[string]bool{"sizeBound": true, "enough": true, "exactlyOnce": true, "peersResult": true, "cancel": true, "hbConsistent": true,
+	"contact": true}
 
 type result struct {
 	steps      int
 	followed   bool
 	drift      string
+	viol       int
 	reproduced map[string]bool
 }
 
@@ -590,6 +666,7 @@ func replay(rep *vh.Report, b *Beh) (res result) {
 	defer r.stop()
 	trail := []any{}
 	violate := func(k, what string, i int, o *Obs) {
+		res.viol++
 		rep.Violate("X_discovery/"+k, fmt.Sprintf("behaviour %s step %d: %s", b.ID, i, what),
 			map[string]any{"behaviour": b.ID, "mode": b.Mode, "limit": b.Limit, "actions": trail, "real": o, "model": b.Steps[i].O})
 	}
@@ -630,6 +707,7 @@ func replay(rep *vh.Report, b *Beh) (res result) {
 		}
 		// the properties, on the real state
 		mon := r.monitors(o)
+		r.contact = ""
 		if name == "LoopDiscover" && r.b.Mode != "api" {
 			// a round was started (FindPeers called) although the set had reached its limit
 			mon["roundBelow"] = !(o.finds > prevFinds && prevSize >= b.Limit)
@@ -686,16 +764,25 @@ func TestDriver(t *testing.T) {
 	if plan.GCProbe {
 		go func() { defer close(gcDone); gcProbe(rep) }()
 	} else {
-		close(gcDone)
+		close(gcDone) // the check runs TestGCProbe as a process of its own, next to TLC
 	}
 
 	drifts := 0
 	repro := map[string]int{}
 	witness := map[string]string{}
 	acts := map[string]int64{}
+	failed := 0
 	for i := range plan.Behs {
 		b := &plan.Behs[i]
+		if failed >= 8 {
+			// the code does not follow the model: every further behaviour costs watchdog time and adds nothing
+			rep.Count("behaviours_skipped", 1)
+			continue
+		}
 		res := replay(rep, b)
+		if res.drift != "" || res.viol > 0 {
+			failed++
+		}
 		rep.Count("behaviours_replayed", 1)
 		rep.Count("steps_replayed", int64(res.steps))
 		if res.followed {
@@ -732,6 +819,15 @@ func TestDriver(t *testing.T) {
 	rep.Set("witness", witness)
 	rep.Set("actions", acts)
 	<-gcDone
+}
+
+// TestGCProbe is the probe alone (a minute of wall time that the check hides behind its TLC runs).
+func TestGCProbe(t *testing.T) {
+	rep := vh.NewReport()
+	gcProbe(rep)
+	if err := rep.Write(); err != nil {
+		t.Fatal(err)
+	}
 }
 
 // gcProbe runs the real GC loop of a backoffConnector once (its period is the constant gcInterval = 1 minute):
